@@ -18,6 +18,11 @@
 (* returned by then) a third decrypt() with a wrong key or with other           *)
 (* associated data must still fail: what an attempt returns depends on what    *)
 (* that attempt was given, not on what the object returned before.             *)
+(* A reader may be constructed with tag verification switched off: the key     *)
+(* hash gate and everything the format requires still apply, only the          *)
+(* authentication tag (and with it header, associated data and ciphertext      *)
+(* integrity) goes unchecked; what comes back for an altered ciphertext is     *)
+(* then unspecified.                                                           *)
 EXTENDS Integers, Sequences, FiniteSets, TLC
 
 Tampers == {"none", "attr-value", "attr-name", "attr-type", "keyhash", "iv", "aad", "ct-first", "ct-last", "ct-padding", "tag", "tag-size", "cryptofooter"}
@@ -28,7 +33,7 @@ Payload(len) == [c \in 1..NChunks(len) |-> c]
 
 Fills == {"slack", "exact", "one-short"}    \* within the single 4096-byte header block the reader supports
 VARIABLES sealed,   \* [len, extra (number of extra attributes), aad (sealed with associated data?), tamper, fill]
-          given,    \* [key ("right"/"wrong"), aad ("same"/"none"/"other")]
+          given,    \* [key ("right"/"wrong"), aad ("same"/"none"/"other"), verify (tag verification on?)]
           phase, out,
           buf, k,   \* private plaintext buffer (sequence of chunk numbers) and chunks processed
           attempt, first,  \* 1, 2 or 3; outcome of the first attempt
@@ -36,15 +41,17 @@ VARIABLES sealed,   \* [len, extra (number of extra attributes), aad (sealed wit
 vars == <<sealed, given, phase, out, buf, k, attempt, first, second, third>>
 
 Init == /\ sealed \in [len : LenClasses, extra : 0..2, aad : BOOLEAN, tamper : Tampers, fill : Fills]
-        /\ given \in [key : {"right", "wrong"}, aad : {"same", "none", "other"}]
+        /\ given \in [key : {"right", "wrong"}, aad : {"same", "none", "other"}, verify : BOOLEAN]
         /\ phase = "start" /\ out = "nothing" /\ buf = <<>> /\ k = 0 /\ attempt = 1 /\ first = "none"
         /\ second = "none" /\ third = "none"
 
 \* what the reader is given in the current attempt
 G == IF attempt = 1 THEN given
-     ELSE IF attempt = 2 THEN [key |-> "right", aad |-> IF sealed.aad THEN "same" ELSE "none"]
+     ELSE IF attempt = 2 THEN [key |-> "right", aad |-> IF sealed.aad THEN "same" ELSE "none", verify |-> given.verify]
      ELSE [key |-> IF third = "wrong-key" THEN "wrong" ELSE "right",
-           aad |-> IF third = "other-aad" THEN "other" ELSE IF sealed.aad THEN "same" ELSE "none"]
+           aad |-> IF third = "other-aad" THEN "other" ELSE IF sealed.aad THEN "same" ELSE "none", verify |-> given.verify]
+\* alterations that change what the cipher puts out or how it is trimmed (the others only break authentication)
+Garbles == sealed.tamper \in {"iv", "ct-first", "ct-last", "ct-padding", "cryptofooter"}
 \* does the authenticated data the reader feeds to GCM equal what was sealed?
 AadMatches == IF sealed.aad THEN G.aad = "same" ELSE G.aad \in {"none", "same"}
 HeaderIntact == sealed.tamper \notin {"attr-value", "attr-name", "attr-type", "iv"}
@@ -58,9 +65,16 @@ DecryptChunk == /\ phase = "keyok" /\ k < NChunks(sealed.len)
                 /\ k' = k + 1 /\ buf' = Append(buf, k + 1)
                 /\ UNCHANGED <<sealed, given, phase, out, attempt, first, second, third>>
 DecryptVerify == /\ phase = "keyok" /\ k = NChunks(sealed.len)
-                 /\ IF HeaderIntact /\ BodyIntact /\ AadMatches /\ sealed.tamper # "aad"
-                    THEN phase' = "returned" /\ out' = buf
-                    ELSE phase' = "failed" /\ out' = "nothing"
+                 /\ IF G.verify
+                    THEN IF HeaderIntact /\ BodyIntact /\ AadMatches /\ sealed.tamper # "aad"
+                         THEN phase' = "returned" /\ out' = buf
+                         ELSE phase' = "failed" /\ out' = "nothing"
+                    ELSE IF Garbles
+                         THEN phase' \in {"returned", "failed"} /\ out' = IF phase' = "returned" THEN "unspecified" ELSE "nothing"
+                         ELSE IF ~HeaderIntact
+                         \* an altered attribute may be one the reader requires (then it refuses) or one it only authenticates
+                         THEN phase' \in {"returned", "failed"} /\ out' = IF phase' = "returned" THEN buf ELSE "nothing"
+                         ELSE phase' = "returned" /\ out' = buf
                  /\ UNCHANGED <<sealed, given, buf, k, attempt, first, second, third>>
 \* the same object is asked again, now with the right key and the associated data it was sealed with
 Again == /\ attempt = 1 /\ phase \in {"returned", "failed"}
@@ -77,12 +91,14 @@ NoNext == FALSE /\ UNCHANGED vars
 Spec == Init /\ [][Next]_vars
 
 Done == phase \in {"returned", "failed"}
-RoundTrip == (Done /\ sealed.tamper = "none" /\ G.key = "right" /\ AadMatches) => (phase = "returned" /\ out = Payload(sealed.len))
+RoundTrip == (Done /\ sealed.tamper = "none" /\ G.key = "right" /\ (AadMatches \/ ~G.verify)) => (phase = "returned" /\ out = Payload(sealed.len))
 NoPlaintextOnFailure == phase = "failed" => out = "nothing"
-ReturnsOnlyThePayload == phase = "returned" => out = Payload(sealed.len)
-AuthFailsClosed == (Done /\ (sealed.tamper # "none" \/ G.key = "wrong" \/ ~AadMatches)) => phase = "failed"
+ReturnsOnlyThePayload == phase = "returned" => IF ~G.verify /\ Garbles THEN out = "unspecified" ELSE out = Payload(sealed.len)
+AuthFailsClosed == (Done /\ G.verify /\ (sealed.tamper # "none" \/ G.key = "wrong" \/ ~AadMatches)) => phase = "failed"
+\* the key hash gate does not depend on tag verification
+KeyGateAlways == (Done /\ (G.key = "wrong" \/ sealed.tamper = "keyhash")) => (phase = "failed" /\ out = "nothing")
 \* asking again is like asking for the first time: the second outcome depends on the file only
-SecondLikeFirst == (attempt = 2 /\ Done) => (phase = "returned" <=> sealed.tamper = "none")
+SecondLikeFirst == (attempt = 2 /\ Done /\ G.verify) => (phase = "returned" <=> sealed.tamper = "none")
 \* an earlier success buys nothing: the third attempt (wrong key / other associated data) fails whatever came before
-ThirdStillChecked == (attempt = 3 /\ Done) => (phase = "failed" /\ out = "nothing")
+ThirdStillChecked == (attempt = 3 /\ Done /\ (G.verify \/ third = "wrong-key")) => (phase = "failed" /\ out = "nothing")
 =============================================================================
